@@ -2,10 +2,15 @@
 # usage: try_mutant.sh <patch> <tier> <check ids...> : apply the patch to /repo, run the checks, ALWAYS revert
 P="$1"; TIER="$2"; shift 2
 cd /repo || exit 2
-git diff --quiet || { echo "/repo dirty"; exit 2; }
-git apply "$P" 2>/dev/null || git apply -3 "$P" || { echo "PATCH DOES NOT APPLY"; git checkout -- .; exit 3; }
+[ -z "$(git status --porcelain --untracked-files=no)" ] || { echo "/repo dirty"; exit 2; }
+if ! git apply "$P" 2>/dev/null; then
+  # fall back to a 3-way merge (patch made on an older HEAD); keep the index clean afterwards
+  git apply -3 "$P" 2>/dev/null || patch -p1 --no-backup-if-mismatch -s < "$P" || { echo "PATCH DOES NOT APPLY"; git reset -q --hard HEAD; exit 3; }
+  git reset -q
+fi
+git diff --stat | tail -1
 for id in "$@"; do
-  echo "=== $id on $(basename $(dirname $(dirname $P)))/$(basename $P)"
-  (cd /verif && timeout 3000 ./check $id --tier $TIER 2>&1 | grep -E "VIOLATION|KNOWN-FINDING|held on|violation\(s\)|MACHINERY|what:" | sort | uniq -c | sort -rn | head -8; )
+  echo "=== $id on $P"
+  (cd /verif && timeout 3000 ./check $id --tier $TIER 2>&1 | grep -E "VIOLATION|KNOWN-FINDING|held on|violation\(s\)|MACHINERY|what:" | sed -e 's/replay=.*//' -e 's/at event [0-9]*//' | cut -c1-230 | sort | uniq -c | sort -rn | head -6; )
 done
-git -C /repo checkout -- . ; git -C /repo status --short | head -3
+git -C /repo checkout HEAD -- . ; git -C /repo reset -q; git -C /repo status --porcelain --untracked-files=no | head -3
